@@ -1,6 +1,7 @@
 import TmVerif.Model.LRXProto
 import TmVerif.Model.TreeBuilder
 import TmVerif.Model.EventNesting
+import TmVerif.Model.LRXPending
 /-!
 Line protocol for C20:
 
@@ -12,6 +13,14 @@ Line protocol for C20:
   hyp <xtables…> <toks> <endOff>  → `ok` | `bad-input` | `bad-reports` (hypotheses `InputWF`, `XWF` of the
                                     nesting theorem, evaluated on a real table / token stream)
   xrun …                          → trace of the extended runtime model (Model/LRXProto.lean)
+  prun <xtables…> <input> <toks> <ign> <endOff>
+                                  → trace of the layered model with reported skipped tokens
+                                    (Model/LRXPending.lean); <ign> = one list per real token and one for
+                                    end-of-input, separated by `|`, each `type:off:end,…` or `-`. The run is
+                                    made with the tables as given AND with `fixTrailingWS` on every rule
+                                    (`trimAll`, the form the theorem speaks about): `TRIM-MISMATCH …` if they differ
+  phyp (same arguments)           → `ok` | `bad-input` | `bad-ignored` | `bad-reports` | `not-trimmed` | `recovering`
+                                    (hypotheses of `C20_nested_with_ignored` on `trimAll` of the tables)
   judge <answer…> :: <case…>      → `holds` | `violates: why`:
       nest      the stream is not `WellNested` although the implementation side called it nested
       build*    the stream is `WellNested` (for `build`: within its own maximal end offset) and the tree
@@ -22,7 +31,7 @@ Line protocol for C20:
 <evs> = `ty:off:end,…` (`-` = none).
 -/
 namespace TmVerif.DriverC20
-open TmVerif.Proto TmVerif.TreeBuilder TmVerif.EventNesting TmVerif.LRX
+open TmVerif.Proto TmVerif.TreeBuilder TmVerif.EventNesting TmVerif.LRX TmVerif.LRXPending
 open TmVerif.LR (Input Tok)
 
 def parseEv (s : String) : Option Ev :=
@@ -76,6 +85,52 @@ def handleCase (args : List String) : Option String :=
   | "xrun" :: rest => handleXRun rest
   | _ => none
 
+def parseIgn (s : String) : Option (List (List Tok)) :=
+  (s.splitOn "|").mapM parseToks
+
+def showPRun (res : XResult) (c : PCfg) : String :=
+  let evs := c.out.reverse.map fun e => match e with
+    | .x (.node ty o e) => s!"{ty}:{o}:{e}"
+    | .x (.error o e) => s!"E:{o}:{e}"
+    | .ign ty o e => s!"{ty}:{o}:{e}"
+  let r := match res with
+    | .accept => "ok"
+    | .syntaxError o e => s!"err:{o}:{e}"
+    | .cancelled => "cancelled"
+    | .panic => "panic"
+    | .fuel => "loop"
+  " ".intercalate (evs ++ [r])
+
+def parsePArgs (args : List String) : Option (XTables × Nat × PInput) := do
+  let (x, rest) ← parseXTables args
+  match rest with
+  | [input, toks, ign, endOff] =>
+    let input ← parseNat? input
+    let toks ← parseToks toks; let ign ← parseIgn ign; let endOff ← parseNat? endOff
+    some (x, input, { inp := { toks := toks.toArray, endOff := endOff }, ign := ign.toArray })
+  | _ => none
+
+def handleP (args : List String) : Option String :=
+  match args with
+  | "prun" :: rest => do
+    let (x, input, p) ← parsePArgs rest
+    let fuel := 80 * (p.inp.toks.size + 2) * (x.t.nStates + 2) + 400
+    let (r1, c1) := prun x p input false fuel
+    let (r2, c2) := prun (trimAll x) p input false fuel
+    let a := showPRun r1 c1
+    let b := showPRun r2 c2
+    if a == b then some a else some s!"TRIM-MISMATCH as-generated={a} all-rules-trimmed={b}"
+  | "phyp" :: rest => do
+    let (x, _, p) ← parsePArgs rest
+    let x' := trimAll x
+    if !decide (InputWF p.inp) then some "bad-input"
+    else if !decide (IgnWF p) then some "bad-ignored"
+    else if !decide (XWF x') then some "bad-reports"
+    else if !decide (TrimAll x') then some "not-trimmed"
+    else if x.recovering then some "recovering"
+    else some "ok"
+  | _ => none
+
 def splitAt (sep : String) : List String → List String × List String
   | [] => ([], [])
   | s :: rest => if s == sep then ([], rest) else
@@ -107,6 +162,13 @@ def judge (answer case : List String) : Option String :=
     if decide (WellNested n evs) && " ".intercalate answer != (buildFileAll ty n evs).show then
       some "violates: well-nested stream, tree differs from the File node over the unique forest with every node under its smallest container"
     else some "holds"
+  | "prun" :: rest =>
+    match rest.getLast? with
+    | some endOff => do
+      let endOff ← parseNat? endOff
+      if decide (WellNested endOff (traceEvs answer)) then some "holds"
+      else some "violates: the parser's listener stream (with ignored tokens) is not well nested"
+    | none => none
   | "xrun" :: rest =>
     match rest.getLast? with
     | some endOff => do
@@ -121,6 +183,8 @@ def handle (args : List String) : Option String :=
   | "judge" :: rest =>
     let (answer, case) := splitAt "::" rest
     judge answer case
+  | "prun" :: _ => handleP args
+  | "phyp" :: _ => handleP args
   | _ => handleCase args
 
 end TmVerif.DriverC20
